@@ -323,38 +323,6 @@ theorem encodeLen_eq (b : List Nat) (p len : Nat) (hl : len < 65536) (h : p + (l
       rw [show p + 1 + 1 = p + 2 by omega, e']
 
 
-theorem index_eq (d : List Nat) (i : Nat) (h : i < d.length) : RBuf.index d i = .ok d[i] := by
-  simp [RBuf.index, List.getElem?_eq_getElem h]
-
-theorem shiftLoop_eq (shift : Nat) : ∀ (n : Nat) (b : List Nat) (wo : Nat), wo + shift + n ≤ b.length →
-    shiftLoop shift n b wo = .ok (b.take wo ++ (b.drop (wo + shift)).take n ++ b.drop (wo + n)) := by
-  intro n
-  induction n with
-  | zero => intro b wo _; simp [shiftLoop, pure, Except.pure]
-  | succ n ih =>
-    intro b wo h
-    have h1 : wo + shift < b.length := by omega
-    have h2 : wo < b.length := by omega
-    simp only [shiftLoop, index_eq b _ h1, bind, Except.bind, wr, h2, if_true]
-    rw [ih _ _ (by simp; omega)]
-    congr 1
-    have e1 : List.take (wo + 1) (b.set wo b[wo + shift]) = List.take wo b ++ [b[wo + shift]] := by
-      rw [List.set_eq_take_append_cons_drop]
-      simp only [h2, if_true]
-      have : wo + 1 = (List.take wo b ++ [b[wo + shift]]).length := by simp; omega
-      rw [show List.take wo b ++ b[wo + shift] :: List.drop (wo + 1) b = (List.take wo b ++ [b[wo + shift]]) ++ List.drop (wo + 1) b by simp]
-      rw [this, List.take_append_length]
-    have e2 : List.drop (wo + 1 + shift) (b.set wo b[wo + shift]) = List.drop (wo + 1 + shift) b :=
-      List.drop_set_of_lt (by omega)
-    have e3 : List.drop (wo + 1 + n) (b.set wo b[wo + shift]) = List.drop (wo + 1 + n) b :=
-      List.drop_set_of_lt (by omega)
-    rw [e1, e2, e3]
-    have e4 : List.take (n + 1) (List.drop (wo + shift) b) = b[wo + shift] :: List.take n (List.drop (wo + 1 + shift) b) := by
-      rw [List.drop_eq_getElem_cons h1, List.take_succ_cons]
-      congr 3; omega
-    rw [e4, show wo + (n + 1) = wo + 1 + n by omega]
-    simp
-
 theorem take_splice_le (b : List Nat) (p k : Nat) (x : List Nat) (hk : k ≤ p) (hp : p ≤ b.length) :
     (splice b p x).take k = b.take k := by
   simp only [splice, List.append_assoc]
@@ -978,11 +946,11 @@ theorem forest_lows (ops : List Op) (ns : List Node) (h : forest ops = some ns) 
   have := forestAux_lows _ _ _ _ h
   simpa [prefixLows, Node.lowsL] using this.symm
 
-/-- **writer output = encoding of the tree**, for every balanced operation sequence that fits -/
-theorem run_balanced (buf : List Nat) (ops : List Op) (ns : List Node) (hb : forest ops = some ns)
+/-- a sequence that performs the operations of a forest writes the forest's encoding -/
+theorem run_of_lows (buf : List Nat) (ops : List Op) (ns : List Node) (hb : ops.map Op.low = Node.lowsL ns)
     (hh : Node.heightL ns < MAX_DEPTH) (hl : Node.lenOkL ns) (hfit : Node.needL ns ≤ buf.length) :
     ∃ w, (W.new buf).run ops = .ok w ∧ w.asSlice = .ok (Node.encL ns) := by
-  rw [(Inv.new buf).run_eq, forest_lows ops ns hb]
+  rw [(Inv.new buf).run_eq, hb]
   obtain ⟨w, hr, hp⟩ := runNodes ns (W.new buf) (by simp [W.new]) (by simpa [W.new] using hh) hl (by simpa [W.new] using hfit)
   refine ⟨w, hr, ?_⟩
   have hout := hp.out
@@ -994,6 +962,11 @@ theorem run_balanced (buf : List Nat) (ops : List Op) (ns : List Node) (hb : for
   simp only [W.asSlice, RBuf.slice, Nat.zero_le, true_and, List.drop_zero, Nat.sub_zero, hout]
   rw [if_pos (by omega)]
 
+/-- **writer output = encoding of the tree**, for every balanced operation sequence that fits -/
+theorem run_balanced (buf : List Nat) (ops : List Op) (ns : List Node) (hb : forest ops = some ns)
+    (hh : Node.heightL ns < MAX_DEPTH) (hl : Node.lenOkL ns) (hfit : Node.needL ns ≤ buf.length) :
+    ∃ w, (W.new buf).run ops = .ok w ∧ w.asSlice = .ok (Node.encL ns) :=
+  run_of_lows buf ops ns (forest_lows ops ns hb) hh hl hfit
 
 /-! ## the reader on the writer's output -/
 
